@@ -7,15 +7,12 @@
    (That both return Some for the fuel `tokenize` supplies is LexerTotal.v.)  *)
 From Coq Require Import List NArith Bool Lia Arith.
 From DC Require Import Base.Utf8 Base.Unicode Base.UnicodeFacts Base.Stream Base.Item Gen.TokenTable
-  Lexer.LexerModel Lexer.LexerTotal.
+  Lexer.LexerModel Lexer.LexerTotal Lexer.LexerLayoutSpec.
 Import ListNotations.
 Local Open Scope bool_scope.
 
 Definition same_st (l l' : plex) : Prop :=
   l_src l = l_src l' /\ l_ch l = l_ch l' /\ l_eof l = l_eof l'.
-
-(* what the parser can see of a token once positions are dropped *)
-Definition sig_item (it : item) : N * list N * bool := (it_tok it, it_val it, it_quoted it).
 
 Definition orel {A : Type} (R : A -> A -> Prop) (r r' : option A) : Prop :=
   match r, r' with
